@@ -410,3 +410,71 @@ Example ex_cell_adjacency : cell_adjacency_ok exC = true.
 Proof. reflexivity. Qed.
 Example ex_three : three Rops <> o0 Rops.
 Proof. cbn. lra. Qed.
+
+(* ------------------------------------------------------------------ volumes: cell masses and vertex masses are positive *)
+Definition cell_nondeg (V : list rvec) (c : cell) : Prop :=
+  let '(a, b, c1, d) := c in
+  det3 Rops (subR (vnth Rops V a) (vnth Rops V d)) (subR (vnth Rops V b) (vnth Rops V d)) (subR (vnth Rops V c1) (vnth Rops V d)) <> 0.
+
+Lemma cell_volumes_pos (V : list rvec) (C : list cell) :
+  (forall c, In c C -> cell_nondeg V c) -> Forall (fun x => 0 < x) (cell_volumes Rops V C).
+Proof.
+  intros H. unfold cell_volumes. apply Forall_forall. intros x Hx. apply in_map_iff in Hx.
+  destruct Hx as [[[[a b] c1] d] [<- Hc]]. specialize (H _ Hc). unfold cell_nondeg in H.
+  unfold cell_volume. set (dd := det3 Rops _ _ _) in *. cbn [oabs odiv six two three omul oadd o1 Rops].
+  pose proof (Rabs_pos_lt _ H) as H0. apply Rdiv_lt_0_compat; [exact H0 | cbv [o1 Rops]; nra].
+Qed.
+
+Theorem real_volume_mass_positive (V : list rvec) (C : list cell) (n : Z) :
+  (forall c, In c C -> cell_nondeg V c) ->
+  (forall u, (0 <= u < n)%Z -> exists c, In c C /\ In u (cell_list c)) ->
+  Forall (fun x => 0 < x) (cell_volumes Rops V C) /\
+  Forall (fun x => 0 < x) (vol_vertex_acc Rops n C (cell_volumes Rops V C)).
+Proof.
+  intros Hnd Hcov. pose proof (cell_volumes_pos V C Hnd) as Hpos. split; [exact Hpos|].
+  unfold vol_vertex_acc. apply Forall_forall. intros x Hx. apply in_map_iff in Hx. destruct Hx as [u [<- Hu]].
+  apply In_zrange in Hu. destruct (Hcov u Hu) as (c & Hc & Huc).
+  set (g := fun cw : cell * R => let '(c0, a) := cw in
+              flat_map (fun x0 : Z => if (x0 =? u)%Z then [massvv_contrib a] else []) (cell_list c0)).
+  assert (Hin : In (c, cell_volume Rops (vnth Rops V (let '(a, _, _, _) := c in a)) (vnth Rops V (let '(_, b, _, _) := c in b))
+                         (vnth Rops V (let '(_, _, c1, _) := c in c1)) (vnth Rops V (let '(_, _, _, d) := c in d)))
+                  (combine C (cell_volumes Rops V C))).
+  { unfold cell_volumes. clear - Hc. induction C as [|c0 C IH]; [contradiction|]. cbn [map combine].
+    destruct Hc as [-> | Hc]; [left; destruct c as [[[a b] c1] d]; reflexivity | right; apply IH; exact Hc]. }
+  apply sumT_pos.
+  - intros E.
+    assert (Hm : exists y, In y (flat_map g (combine C (cell_volumes Rops V C)))).
+    { eexists. apply in_flat_map. eexists. split; [exact Hin|]. unfold g. apply in_flat_map. exists u. split; [exact Huc|].
+      rewrite Z.eqb_refl. left. reflexivity. }
+    destruct Hm as [y Hy]. fold g in E. rewrite E in Hy. destruct Hy.
+  - apply Forall_forall. intros y Hy. apply in_flat_map in Hy. destruct Hy as [[c0 a] [Hca Hy]].
+    assert (Ha : 0 < a).
+    { apply in_combine_r in Hca. rewrite Forall_forall in Hpos. apply Hpos. exact Hca. }
+    apply in_flat_map in Hy. destruct Hy as [x0 [_ Hy]].
+    destruct (x0 =? u)%Z; [|destruct Hy]. destruct Hy as [<- | []]. unfold massvv_contrib. exact Ha.
+Qed.
+
+(* the inverse / sqrt options keep every mass matrix positive *)
+Theorem real_mass_options_positive (x : R) : 0 < x ->
+  (forall inv sq, 0 < massv_post Rops inv sq x) /\ (forall inv, 0 < massf_post Rops inv x) /\
+  (forall inv, 0 < masse_post Rops inv x) /\ (forall inv sq, 0 < massvv_post Rops inv sq x) /\
+  (forall inv sq, 0 < massvc_post Rops inv sq x).
+Proof.
+  intros Hx. pose proof (sqrt_lt_R0 x Hx) as Hs.
+  assert (I1 : 0 < 1 / x) by (unfold Rdiv; rewrite Rmult_1_l; apply Rinv_0_lt_compat; exact Hx).
+  assert (I2 : 0 < 1 / sqrt x) by (unfold Rdiv; rewrite Rmult_1_l; apply Rinv_0_lt_compat; exact Hs).
+  repeat split; intros; repeat match goal with b : bool |- _ => destruct b end;
+    cbv [massv_post massf_post masse_post massvv_post massvc_post osqrt odiv o1 Rops]; assumption.
+Qed.
+
+Definition exVc : list rvec := [(0, 0, 0); (1, 0, 0); (0, 1, 0); (0, 0, 1); (1, 1, 1)].
+Example ex_cells_nondeg : forall c, In c exC -> cell_nondeg exVc c.
+Proof.
+  assert (V0 : vnth Rops exVc 0 = (0, 0, 0)) by reflexivity.
+  assert (V1 : vnth Rops exVc 1 = (1, 0, 0)) by reflexivity.
+  assert (V2 : vnth Rops exVc 2 = (0, 1, 0)) by reflexivity.
+  assert (V3 : vnth Rops exVc 3 = (0, 0, 1)) by reflexivity.
+  assert (V4 : vnth Rops exVc 4 = (1, 1, 1)) by reflexivity.
+  intros c [<- | [<- | []]]; unfold cell_nondeg; rewrite ?V0, ?V1, ?V2, ?V3, ?V4;
+    cbv [det3 vsub osub omul oadd Rops]; lra.
+Qed.
